@@ -24,6 +24,7 @@ RULE = (
     "must equal the outcome of the same operation on a CID freshly loaded from the same rows. Non-trivial: a "
     "sequence in which a later operation touches a key or value an earlier one registered (every sequence of >= 2 "
     "operations here, since all data sets share keys); sequences are distinct by construction."
+    "Every data set is a stream with a name derived from its content, so that messages that refer to another data set's file are noticed."
 )
 ASSUMPTIONS = [
     "runs are started one after the other; the only interleaving is the late finalisation (close) of an earlier "
